@@ -36,6 +36,7 @@ def run(db, chk) -> None:
     _defaults(db, chk, m)
     _compare(db, chk, m)
     _classes(db, chk, m)
+    _full_trace(db, chk, m)
 
 
 def _summary(db, chk, m):
@@ -331,3 +332,47 @@ def _classes(db, chk, m):
     chk.ob(rule, "identical labels on both traces: with compare_traces inlined, every (control, test) count pattern still falls into exactly its class", verdict, where,
            found=bad[:3] or "10 patterns agree", accepted="same partition as with distinct labels",
            why="compare_traces renames the test label when both labels are equal; ops_diff must look the columns up under the same (renamed) label, else every name is classified from the control counts alone")
+
+
+def _full_trace(db, chk, m):
+    """the comparison counts the events of the trace FILES: LabeledTrace parses them itself on every construction path (a Trace that was handed over may
+    already be trimmed to the steps an earlier analysis kept) and never applies the step trimming"""
+    rule = "C17.R5-full-trace"
+    ref = f"{TD}:LabeledTrace.__init__"
+    fn = m.func("LabeledTrace.__init__")
+    where = m.loc(fn)
+
+    def hook(I, name, pos, kw, node):
+        if name.endswith(".parse_traces"):
+            I.log("parse", node)
+            return None
+        if name.endswith("align_and_filter_trace"):
+            I.log("trim", node)
+            return None
+        if name.endswith("_extract_iterations"):
+            return T.P("ITERS")
+        if name.endswith(("get_sym_id_map", "get_sym_table")):
+            return T.P("SYM")
+        if name == "Trace":
+            return Obj("trace_from_dir", attrs={"is_parsed": False, "symbol_table": Obj("symtab")})
+        if name.endswith("isdir"):
+            return True
+        return NotImplemented
+    n = 0
+    for given in ("trace object", "trace directory"):
+        I = Interp(db, call_hook=hook)
+        tobj = Obj("given_trace", attrs={"is_parsed": T.P("IS_PARSED"), "symbol_table": Obj("symtab")})
+        args = {"self": Obj("self", cls=(m, "LabeledTrace")), "label": "L", "t": tobj if given == "trace object" else None, "trace_dir": None if given == "trace object" else "/d"}
+        runs = [r for r in I.explore(ref, lambda I: dict(args)) if r.raised is None]
+        if not runs:
+            chk.ob(rule, f"LabeledTrace({given}): a normal construction path", None, where, found=0)
+            continue
+        for r in runs:
+            n += 1
+            parses = [e for e in r.events if e["kind"] == "parse"]
+            trims = [e for e in r.events if e["kind"] == "trim"]
+            cond = T.show(r.cond())[:80] if r.path else "always"
+            chk.ob(rule, f"LabeledTrace({given}) [{cond}]: the trace files are parsed by the constructor itself", len(parses) >= 1, where, found=f"{len(parses)} parse_traces() call(s)", accepted="self.t.parse_traces() on every path",
+                   why="a Trace taken from a TraceAnalysis was trimmed by align_and_filter_trace: without the re-parse the last profiler step compares as empty")
+            chk.ob(rule, f"LabeledTrace({given}) [{cond}]: no step trimming", not trims, where, found=len(trims), accepted=0)
+    chk.floor(rule, 4)
